@@ -36,8 +36,8 @@ Record rst := RSt { r_ont : ost; r_pols : polmap; r_roles : rolemap }.
 
 (* which repairs the tree carries:
    f12 = role.Delete also deletes the role's ontology resource (pinned: table row only)
-   f21 = policy.Delete also deletes the policies' ontology resources (pinned: table rows only) *)
-Record rcfg := RCfg { rc_ont : cfg; f12 : bool; f21 : bool }.
+   f26 = policy.Delete also deletes the policies' ontology resources (pinned: table rows only) *)
+Record rcfg := RCfg { rc_ont : cfg; f12 : bool; f26 : bool }.
 Definition rpinned : rcfg := RCfg fixed false false.
 Definition rfixed : rcfg := RCfg fixed true true.
 
@@ -151,7 +151,7 @@ Definition delete_resources (o : ost) (ids : list id) : ost :=
   fold_left (fun o i => (delete_resource o i).1) ids o.
 
 Definition delete_policies (c : rcfg) (st : rst) (ks : list str) : rst * err :=
-  (RSt (if f21 c then delete_resources (r_ont st) (policy_id <$> ks) else r_ont st)
+  (RSt (if f26 c then delete_resources (r_ont st) (policy_id <$> ks) else r_ont st)
        (foldr delete (r_pols st) ks) (r_roles st), EOk).
 
 Fixpoint set_on_role (c : rcfg) (st : rst) (r : str) (ps : list str) : rst * err :=
